@@ -164,7 +164,10 @@ def _arg(env, v, world=None, node_id=None, label="", self_obj=None):
             import autoarray as aa
 
             o = v["$over_dataset"]
-            return aa.OverSamplingDataset(**{k: aa.OverSamplingUniform(sub_size=int(x)) for k, x in o.items()})
+            req = aa.OverSamplingDataset(**{k: aa.OverSamplingUniform(sub_size=int(x)) for k, x in o.items()})
+            if world is not None:
+                world.own_obj(node_id or "?", "arg:" + label, req)  # the caller's request object must come back as it went in
+            return req
         if "$tuple" in v:
             return tuple(_arg(env, x, world, node_id, label, self_obj) for x in v["$tuple"])
         if "$list" in v:
@@ -710,10 +713,20 @@ def derivations(obj, rng, nodes_by_type):
             out.append({"t": "call", "name": "apply_noise_scaling", "kw": {"mask": {"$node": m}, "signal_to_noise_value": 2.0, "should_zero_data": False}})
         out.append({"t": "call", "name": "trimmed_after_convolution_from", "kw": {"kernel_shape": _T(_odd(rng, 3), _odd(rng, 3))}})
         out.append({"t": "call", "name": "apply_over_sampling", "kw": {"over_sampling": {"$over_dataset": {"uniform": rng.randrange(1, 3), "pixelization": rng.randrange(1, 3)}}}})
+        out.append({"t": "call", "name": "apply_over_sampling", "kw": {"over_sampling": {"$over_dataset": {rng.choice(["uniform", "non_uniform", "pixelization"]): rng.randrange(1, 4)}}}})
+        out.append({"t": "call", "name": "apply_over_sampling", "kw": {}})
+        rq = pick("OverSamplingDataset")
+        if rq:
+            out.append({"t": "call", "name": "apply_over_sampling", "kw": {"over_sampling": {"$node": rq}}})
         for p in ("grids", "convolver", "w_tilde", "data", "noise_map", "psf", "mask"):
             out.append({"t": "prop", "name": p})
     if tn == "Interferometer":
         out.append({"t": "call", "name": "apply_over_sampling", "kw": {"over_sampling": {"$over_dataset": {"uniform": rng.randrange(1, 3), "pixelization": rng.randrange(1, 3)}}}})
+        out.append({"t": "call", "name": "apply_over_sampling", "kw": {"over_sampling": {"$over_dataset": {rng.choice(["uniform", "non_uniform", "pixelization"]): rng.randrange(1, 4)}}}})
+        out.append({"t": "call", "name": "apply_over_sampling", "kw": {}})
+        rq = pick("OverSamplingDataset")
+        if rq:
+            out.append({"t": "call", "name": "apply_over_sampling", "kw": {"over_sampling": {"$node": rq}}})
         for p in ("grids", "transformer", "data", "noise_map", "dirty_image", "dirty_noise_map"):
             out.append({"t": "prop", "name": p})
     if tn == "GridsDataset":
